@@ -32,6 +32,7 @@ inductive Err
   | authFailed   -- "... auth failed"
   | notAllowed   -- "... user [..] not allowed"
   | lclosed      -- "put conn error: listener is closed"
+  | encFailed    -- "create encryption connection failed: .." (libio.WithEncryption: the IV source failed)
   deriving DecidableEq, Repr
 
 /-- an element of an InternalListener's accept channel, with ghost fields recording the request that put it there -/
